@@ -145,7 +145,7 @@ theorem ofRows_table_row (name : Option Str) (use : Bool) (rows : List Row) :
 theorem ofRows_directive_row (name : Option Str) (use : Bool) (rows : List Row) :
     ∀ b ∈ (Sheet.ofRows name use rows).blocks, b.ty = .directive →
       (∃ s tail, rows[b.row]? = some (.str s :: tail) ∧ C03.Spec.IsDirective s ∧ b.name = s.drop 3) ∧
-      ∀ ln ∈ b.lines, ∃ r ∈ rows.drop (b.row + 1), firstStr r = ln := by
+      ∀ ln ∈ b.lines, ∃ r ∈ rows.drop (b.row + 1), lineTok r = ln := by
   intro b hb hty
   simp only [Sheet.ofRows, List.mem_map] at hb
   obtain ⟨blk, hblk, rfl⟩ := hb
@@ -175,6 +175,14 @@ theorem ofRows_directive_row (name : Option Str) (use : Bool) (rows : List Row) 
     have h2 : r' ∈ rows.drop (blk.first + 1) := by simpa [List.tail_drop] using h1
     exact h2
 
+/-- marking the tables that do not parse changes nothing else about the blocks of a sheet -/
+theorem ofRowsBad_mem (name : Option Str) (use : Bool) (rows : List Row) (bad : List Nat) (b : FBlock)
+    (hb : b ∈ (Sheet.ofRowsBad name use rows bad).blocks) :
+    ∃ b0 ∈ (Sheet.ofRows name use rows).blocks, b0.ty = b.ty ∧ b0.row = b.row ∧ b0.name = b.name := by
+  simp only [Sheet.ofRowsBad, List.mem_map] at hb
+  obtain ⟨blk, hblk, rfl⟩ := hb
+  exact ⟨toFBlock blk, by simp only [Sheet.ofRows, List.mem_map]; exact ⟨blk, hblk, rfl⟩, rfl, rfl, rfl⟩
+
 /-! ## 2. origin_file_sheet_row -/
 
 /-- **origin_file_sheet_row**: in a world whose sheets are what `parse_blocks` makes of their rows (`rowsOf`),
@@ -182,19 +190,22 @@ theorem ofRows_directive_row (name : Option Str) (use : Bool) (rows : List Row) 
     that is read (its name, or none for CSV), and the index of its `**name` row in that sheet's rows. -/
 theorem origin_file_sheet_row (w : World) (cfg : Cfg) (roots : List Str)
     (rowsOf : Loc → Option Str → List Row)
+    (badOf : Loc → Option Str → List Nat)
     (hw : ∀ l sheets, lookupNode w l = some (.file sheets) → ∀ s ∈ sheets,
-      s.blocks = (Sheet.ofRows s.name s.use (rowsOf l s.name)).blocks) :
+      s.blocks = (Sheet.ofRowsBad s.name s.use (rowsOf l s.name) (badOf l s.name)).blocks) :
     ∀ o ∈ (loadFiles w cfg roots).1.out, o.blk.ty = .table →
       o.loc ∈ (loadFiles w cfg roots).1.visited ∧
       (∃ sheets s, lookupNode w o.loc = some (.file sheets) ∧ s ∈ sheets ∧ s.use = true ∧ o.sheet = s.name) ∧
       ∃ str tail, (rowsOf o.loc o.sheet)[o.blk.row]? = some (.str str :: tail) ∧
         C03.Spec.IsTable str ∧ o.blk.name = str.drop 2 := by
   intro o ho hty
-  obtain ⟨hv, _, sheets, s, hn, hs, hu, hname, hb⟩ := C16.yielded_from_visited w cfg roots o ho
+  obtain ⟨hv, _, sheets, s, hn, hs, hu, hname, hb, _⟩ := C16.yielded_from_visited w cfg roots o ho
   refine ⟨hv, ⟨sheets, s, hn, hs, hu, hname⟩, ?_⟩
   rw [hw o.loc sheets hn s hs] at hb
   rw [hname]
-  exact ofRows_table_row s.name s.use (rowsOf o.loc s.name) o.blk hb hty
+  obtain ⟨b0, hb0, h1, h2, h3⟩ := ofRowsBad_mem _ _ _ _ _ hb
+  obtain ⟨str, tail, e1, e2, e3⟩ := ofRows_table_row s.name s.use (rowsOf o.loc s.name) b0 hb0 (h1 ▸ hty)
+  exact ⟨str, tail, h2 ▸ e1, e2, h3 ▸ e3⟩
 
 /-! ## 3. history_is_include_path -/
 
@@ -218,22 +229,23 @@ inductive ValidHistory (w : World) (roots : List Str) : Item → Prop
 
 end Spec
 
-theorem pushes_shape (w : World) (allow : Bool) (l : Loc) (it : Item) (node : Node)
+theorem pushes_shape (w : World) (allow raising : Bool) (l : Loc) (it : Item) (node : Node)
     (hn : lookupNode w l = some node) :
-    ∀ x ∈ nodePushes allow l it node, ∃ s a, x = .inc s a it ∧ a.loc = l ∧ Spec.StepPresent w s a := by
+    ∀ x ∈ nodePushes allow l it (effNode raising node),
+      ∃ s a, x = .inc s a it ∧ a.loc = l ∧ Spec.StepPresent w s a := by
   intro x hx
   cases node with
-  | unreadable => simp [nodePushes] at hx
+  | unreadable => simp [nodePushes, effNode] at hx
   | folder ch =>
-    simp only [nodePushes, folderPushes, List.mem_map, List.mem_filter] at hx
+    simp only [effNode, nodePushes, folderPushes, List.mem_map, List.mem_filter] at hx
     obtain ⟨c, ⟨hc, hm⟩, rfl⟩ := hx
     refine ⟨c.1, ⟨l, none⟩, rfl, rfl, ?_⟩
     refine ⟨ch, hn, ?_⟩
     have : c = (c.1, true) := by rw [← hm]
     rw [← this]; exact hc
   | file sheets =>
-    simp only [nodePushes, List.mem_flatMap] at hx
-    obtain ⟨s, hs, hx⟩ := hx
+    simp only [effNode, nodePushes, List.mem_flatMap] at hx
+    obtain ⟨s', hs', hx⟩ := hx
     unfold sheetPushes at hx
     split at hx
     · rename_i hu
@@ -244,9 +256,10 @@ theorem pushes_shape (w : World) (allow : Bool) (l : Loc) (it : Item) (node : No
       · rename_i hinc
         simp only [List.mem_map] at hx
         obtain ⟨ln, hln, rfl⟩ := hx
-        refine ⟨ln, ⟨l, some (s.name, b.row)⟩, rfl, rfl, ?_⟩
+        obtain ⟨s, hs, hsu, hname, hblk⟩ := C16.mem_cutSheets raising sheets s' hs' hu
+        refine ⟨ln, ⟨l, some (s'.name, b.row)⟩, rfl, rfl, ?_⟩
         simp only [Bool.and_eq_true] at hinc
-        exact ⟨sheets, s, b, hn, hs, hu, rfl, hb, (C16.isInclude_iff b).1 hinc.2, rfl, hln⟩
+        exact ⟨sheets, s, b, hn, hs, hsu, hname.symm, (hblk b hb).1, (C16.isInclude_iff b).1 hinc.2, rfl, hln⟩
       · simp at hx
     · simp at hx
 
@@ -298,13 +311,13 @@ theorem histInv_final (w : World) (cfg : Cfg) (roots : List Str) :
         simp only [List.mem_append] at hx
         rcases hx with hx | hx
         · exact keep it rest hp x hx
-        · obtain ⟨s, a, rfl, ha, hpres⟩ := pushes_shape w _ l it node hn x hx
+        · obtain ⟨s, a, rfl, ha, hpres⟩ := pushes_shape w _ cfg.raising l it node hn x hx
           exact .inc hit hpres (by rw [ha]; exact hr)
       · intro o ho
         simp only [List.mem_append] at ho
         rcases ho with ho | ho
         · exact h.out o ho
-        · obtain ⟨h1, h2⟩ := nodeOuts_item _ l it node o ho
+        · obtain ⟨h1, h2⟩ := nodeOuts_item _ l it _ o ho
           rw [h1, h2]; exact ⟨hit, hr⟩
   · constructor
     · intro it hit
@@ -374,7 +387,7 @@ theorem chainInv_final (w : World) (cfg : Cfg) (roots : List Str) :
         rcases hx with hx | hx
         · obtain ⟨h1, h2⟩ := keep it rest hp x hx
           exact ⟨h1, fun y hy => List.mem_append_left _ (h2 y hy)⟩
-        · obtain ⟨s, a, rfl, ha, _⟩ := pushes_shape w _ l it node hn x hx
+        · obtain ⟨s, a, rfl, ha, _⟩ := pushes_shape w _ cfg.raising l it node hn x hx
           simp only [chainLocs, ha]
           refine ⟨List.nodup_cons.2 ⟨hl, hnd⟩, ?_⟩
           intro y hy
@@ -386,7 +399,7 @@ theorem chainInv_final (w : World) (cfg : Cfg) (roots : List Str) :
         simp only [List.mem_append] at ho
         rcases ho with ho | ho
         · exact h.out o ho
-        · obtain ⟨h1, h2⟩ := nodeOuts_item _ l it node o ho
+        · obtain ⟨h1, h2⟩ := nodeOuts_item _ l it _ o ho
           rw [h1, h2]; exact List.nodup_cons.2 ⟨hl, hnd⟩
   · constructor
     · intro it hit
@@ -1067,8 +1080,9 @@ theorem cohInv_final (w : World) (cfg : Cfg) (roots : List Str) : CohInv (loadFi
         intro x hx
         simp only [pairsOf, List.mem_append, List.mem_flatMap]
         exact Or.inr ⟨it, (C16.pop_mem _ _ _ _ hp it).2 (Or.inl rfl), hx⟩
-      have hnew : ∀ x ∈ pairsOf ⟨rest ++ nodePushes cfg.allowInclude l it node, st.visited ++ [l],
-            st.out ++ nodeOuts cfg.allowInclude l it node, st.issues⟩,
+      have hnew : ∀ x ∈ pairsOf ⟨rest ++ nodePushes cfg.allowInclude l it (effNode cfg.raising node),
+            st.visited ++ [l], st.out ++ nodeOuts cfg.allowInclude l it (effNode cfg.raising node),
+            st.issues ++ nodeIssues cfg.raising l node⟩,
           x ∈ pairsOf st ∨ (x.1.loc = l ∧ x.2 = it.src.map Anchor.key) := by
         intro x hx
         simp only [pairsOf, List.mem_append, List.mem_flatMap] at hx
@@ -1076,7 +1090,7 @@ theorem cohInv_final (w : World) (cfg : Cfg) (roots : List Str) : CohInv (loadFi
         · left
           simp only [pairsOf, List.mem_append, List.mem_flatMap]
           exact Or.inl ⟨o, ho, hx⟩
-        · obtain ⟨h1, h2⟩ := nodeOuts_item _ l it node o ho
+        · obtain ⟨h1, h2⟩ := nodeOuts_item _ l it _ o ho
           rw [h1, h2, chainPairs_eq] at hx
           simp only [List.mem_cons] at hx
           rcases hx with rfl | hx
@@ -1085,7 +1099,7 @@ theorem cohInv_final (w : World) (cfg : Cfg) (roots : List Str) : CohInv (loadFi
         · left
           simp only [pairsOf, List.mem_append, List.mem_flatMap]
           exact Or.inr ⟨y, (C16.pop_mem _ _ _ _ hp y).2 (Or.inr hy), hx⟩
-        · obtain ⟨s, a, rfl, ha, _⟩ := pushes_shape w _ l it node hn y hy
+        · obtain ⟨s, a, rfl, ha, _⟩ := pushes_shape w _ cfg.raising l it node hn y hy
           simp only [anchorPairs] at hx
           rw [chainPairs_eq] at hx
           simp only [List.mem_cons] at hx
